@@ -34,11 +34,12 @@ pub fn file_name_to_string(fname: [u8;30]) -> String {
 }
 
 pub fn string_to_file_name(s: &str) -> [u8;30] {
-    if s.len()> 30 {
+    // the length limit applies to the bytes, hex escapes make the string longer
+    let unescaped = crate::escaped_ascii_to_bytes(s, true);
+    if unescaped.len()> 30 {
         panic!("DOS filename was loo long");
     }
     let mut ans: [u8;30] = [0xa0;30]; // fill with negative spaces
-    let unescaped = crate::escaped_ascii_to_bytes(s, true);
     for i in 0..30 {
         if i<unescaped.len() {
             ans[i] = unescaped[i];
